@@ -1,1 +1,59 @@
 // shared helpers for vh_cli bins
+use emmylua_code_analysis::{
+    EmmyLuaAnalysis, WorkspaceFolder, build_workspace_folders, collect_workspace_files, load_configs,
+};
+use std::path::{Path, PathBuf};
+use std::sync::Arc;
+
+/// Load a workspace the way `emmylua_check::init::load_workspace` and
+/// `emmylua_doc_cli::init::load_workspace` do (both are private): default config files of the main
+/// folder, std lib, library folders from the config, every collected file through
+/// `update_files_by_path`.  `main` must be absolute (and canonical for the checker).
+pub fn load_workspace_like_cli(main: &Path) -> EmmyLuaAnalysis {
+    let main_path: PathBuf = main.to_path_buf();
+    let config_files: Vec<PathBuf> = vec![
+        main_path.join(".luarc.json"),
+        main_path.join(".emmyrc.json"),
+    ]
+    .into_iter()
+    .filter(|p| p.exists())
+    .collect();
+    let mut emmyrc = load_configs(config_files, None);
+    emmyrc.pre_process_emmyrc(&main_path);
+    let folders = vec![WorkspaceFolder::new(main_path.clone(), false)];
+    let mut analysis = EmmyLuaAnalysis::new();
+    analysis.update_config(Arc::new(emmyrc));
+    analysis.init_std_lib(None);
+    let folders = build_workspace_folders(&folders, &analysis.emmyrc);
+    for ws in &folders {
+        if ws.is_library {
+            analysis.add_library_workspace(ws);
+        } else {
+            analysis.add_main_workspace(ws.root.clone());
+        }
+    }
+    let infos = collect_workspace_files(&folders, &analysis.emmyrc, None, None);
+    let files = infos.into_iter().map(|f| f.into_tuple()).collect();
+    analysis.update_files_by_path(files);
+    analysis
+}
+
+/// run `jobs` closures on up to `par` threads, results in job order
+pub fn par_map<T: Send, R: Send>(items: Vec<T>, par: usize, f: impl Fn(T) -> R + Sync) -> Vec<R> {
+    let n = items.len();
+    let queue = std::sync::Mutex::new(items.into_iter().enumerate().collect::<Vec<_>>());
+    let results = std::sync::Mutex::new((0..n).map(|_| None).collect::<Vec<Option<R>>>());
+    std::thread::scope(|s| {
+        for _ in 0..par.max(1).min(n.max(1)) {
+            s.spawn(|| {
+                loop {
+                    let job = queue.lock().unwrap().pop();
+                    let Some((i, item)) = job else { break };
+                    let r = f(item);
+                    results.lock().unwrap()[i] = Some(r);
+                }
+            });
+        }
+    });
+    results.into_inner().unwrap().into_iter().map(|r| r.unwrap()).collect()
+}
